@@ -14,16 +14,20 @@ pub const BINOPS: &[(&str, &str, u8)] = &[
   // table operators (level 6) and set operators (level 7, the tightest binary level)
   ("⋈", "join", 6), ("⟕", "ljoin", 6), ("⟖", "rjoin", 6), ("⟗", "fjoin", 6), ("⋉", "semi", 6), ("▷", "anti", 6),
   ("∪", "union", 7), ("∩", "inter", 7), ("∖", "diff", 7), ("Δ", "symdiff", 7), ("⊆", "subset", 7), ("⊇", "superset", 7),
-  ("⊊", "psubset", 7), ("⊋", "psuperset", 7), ("∈", "elem", 7), ("∉", "notelem", 7)];
+  ("⊊", "psubset", 7), ("⊋", "psuperset", 7), ("∈", "elem", 7), ("∉", "notelem", 7),
+  // the matrix operators share level 4 with * / %
+  ("**", "matmul", 4), ("·", "dot", 4), ("⨯", "cross", 4), ("\\", "solve", 4)];
 
 /// operands of table and set operators are the names of this prelude (evaluated before the formula)
-const PRELUDE: &str = "sa := {1, 2, 3}\nsb := {2, 3}\nsc := {3}\nsd := {1, 4}\nta := |x<u8> y<u8>| 1 2 | 3 4 |\ntb := |x<u8> z<u8>| 1 5 | 7 8 |\ntc := |x<u8> w<u8>| 3 9 | 1 6 |\n";
+const PRELUDE: &str = "sa := {1, 2, 3}\nsb := {2, 3}\nsc := {3}\nsd := {1, 4}\nta := |x<u8> y<u8>| 1 2 | 3 4 |\ntb := |x<u8> z<u8>| 1 5 | 7 8 |\ntc := |x<u8> w<u8>| 3 9 | 1 6 |\nma := [1 2; 3 4]\nmb := [0 1; 1 1]\nmc := [2 0; 1 3]\nva := [1 2 3]\nvb := [4 5 6]\nvc := [7 8 10]\n";
+const NAMED: &[&str] = &["sa", "sb", "sc", "sd", "ta", "tb", "tc", "ma", "mb", "mc", "va", "vb", "vc"];
 
 fn op_name(op: &FormulaOperator) -> String {
   match op {
     FormulaOperator::AddSub(AddSubOp::Add) => "add", FormulaOperator::AddSub(AddSubOp::Sub) => "sub",
     FormulaOperator::MulDiv(MulDivOp::Mul) => "mul", FormulaOperator::MulDiv(MulDivOp::Div) => "div", FormulaOperator::MulDiv(MulDivOp::Mod) => "mod",
     FormulaOperator::Power(_) => "pow",
+    FormulaOperator::Vec(v) => match v { VecOp::MatMul => "matmul", VecOp::Dot => "dot", VecOp::Cross => "cross", VecOp::Solve => "solve" },
     FormulaOperator::Comparison(c) => match c { ComparisonOp::Equal => "eq", ComparisonOp::NotEqual => "ne", ComparisonOp::LessThan => "lt",
       ComparisonOp::LessThanEqual => "le", ComparisonOp::GreaterThan => "gt", ComparisonOp::GreaterThanEqual => "ge", _ => "cmp?" },
     FormulaOperator::Logic(l) => match l { LogicOp::And => "and", LogicOp::Or => "or", LogicOp::Xor => "xor", LogicOp::Not => "not" },
@@ -146,7 +150,7 @@ pub fn source(case: &str) -> String {
 pub fn exec(case: &str) -> String {
   let src = source(case);
   // formulas over sets or tables are evaluated after the prelude that defines their operands
-  let high = BINOPS.iter().filter(|b| b.2 >= 6).any(|b| case.split('\t').nth(1).unwrap_or("").split(' ').any(|t| t == b.1));
+  let high = case.split('\t').nth(1).unwrap_or("").split(' ').any(|t| NAMED.contains(&t) || BINOPS.iter().any(|b| b.2 >= 6 && b.1 == t));
   let pre = if high { PRELUDE } else { "" };
   let src = format!("{}{}", pre, src);
   let tree = match parse_code(&src) { Ok(t) => t, Err(e) => return format!("noparse:{}", e) };
@@ -270,6 +274,23 @@ pub fn generate(seed: u64, thorough: bool, sink: &mut Sink) -> Vec<String> {
       toks.push(match rng.below(4) { 0 => (*rng.pick(&sets)).to_string(), 1 => (*rng.pick(&tabs)).to_string(), _ => operand(&mut rng, false) });
     }
     cases.push(format!("prec\t{}", toks.join(" "))); sink.hit("mixed-with-set-and-table-ops");
+  }
+  // the matrix operators (** · ⨯ \) next to the element-wise operators of their own level and the looser and
+  // tighter levels: every sequence of one and two operators with at least one matrix operator, sequences of
+  // three (quick: a quarter), over 2x2 matrices and over 3-vectors, plain, with a transpose or a prefix minus
+  let matops = ["matmul", "dot", "cross", "solve"];
+  let around = ["matmul", "dot", "cross", "solve", "mul", "div", "mod", "add", "sub", "pow"];
+  for (opnds, tag) in [(["ma", "mb", "mc", "ma"], "matrices"), (["va", "vb", "vc", "va"], "vectors")] {
+    for a in around.iter() { for b in around.iter() {
+      if matops.contains(a) && a == b { cases.push(format!("prec\t{} {} {}", opnds[0], a, opnds[1])); sink.hit("matrix-ops-len1"); }
+      if !(matops.contains(a) || matops.contains(b)) { continue; }
+      cases.push(format!("prec\t{} {} {} {} {}", opnds[0], a, opnds[1], b, opnds[2])); sink.hit(&format!("matrix-ops-len2:{}", tag));
+      if rng.chance(1, 3) { cases.push(format!("prec\t{} tr {} {} {} neg {}", opnds[0], a, opnds[1], b, opnds[2])); sink.hit("matrix-ops-len2:decorated"); }
+      for c in around.iter() {
+        if !thorough && !rng.chance(1, 4) { continue; }
+        cases.push(format!("prec\t{} {} {} {} {} {} {}", opnds[0], a, opnds[1], b, opnds[2], c, opnds[3])); sink.hit("matrix-ops-len3");
+      }
+    }}
   }
   sink.sample(cases[20].clone()); sink.sample(cases[cases.len() - 1].clone());
   cases
